@@ -105,7 +105,8 @@ func AsStreamProcessorFactory(f ProcessorFactory) h2.StreamProcessorFactory {
 // Processor processes gRPC traffic.
 type Processor interface {
 	h2.HeaderProcessor
-	// Message receives serialized messages.
+	// Message receives serialized messages. A call with nil data and streamEnded set signals the end
+	// of the stream without a message (gRPC may end a stream with an empty DATA frame).
 	Message(data []byte, streamEnded bool) error
 }
 
@@ -295,6 +296,11 @@ func (e *emitter) Header(
 }
 
 func (e *emitter) Message(data []byte, streamEnded bool) error {
+	if data == nil && streamEnded {
+		// This is the end of the stream without a message. It is forwarded the way it arrived, as an
+		// empty DATA frame, instead of being framed as an additional zero-length message.
+		return e.sink.Data(nil, true)
+	}
 	// Applies compression to `data` depending on `adapter`'s state.
 	if e.adapter.compressed {
 		switch e.adapter.encoding {
